@@ -209,7 +209,7 @@ Proof.
       [|right; split; [reflexivity|discriminate]|right; split; [reflexivity|discriminate]].
     destruct (at_time now cfg a) as [t| |]; cbn [cbind]; [| |];
       [|right; split; [reflexivity|discriminate]|right; split; [reflexivity|discriminate]].
-    cbv zeta. destruct (of_outcome (plus_days (dt d) (-1))) as [y| |]; cbn [cbind];
+    cbv zeta. destruct (if was_automatic a then of_outcome (plus_days (dt d) (-1)) else COk (dt d)) as [y| |]; cbn [cbind];
       [left; exact (reconcile_file_unparseable _ _ _ _ Hp)| |]; right; split; [reflexivity|discriminate|reflexivity|discriminate].
   - destruct (of_outcome (at_date now (a_date a))) as [d| |]; cbn [cbind]; [| |];
       [|right; split; [reflexivity|discriminate]|right; split; [reflexivity|discriminate]].
